@@ -40,6 +40,15 @@ def cases(draw):
     factored, macros, kinds = factor(draw, pattern)
     assume(macros)
     u = draw(st.sampled_from(UNDEF))
+    punct = [m_["name"] for m_ in macros if any(ch in m_["name"] for ch in ".-")]
+    if punct and draw(st.integers(0, 2)) == 0:
+        # the undefined name is the spelling of a DEFINED one with its '.' / '-' written as another character (`@reg_64` beside the
+        # defined `@reg.64`): a different name, so it has no definition
+        near = draw(st.sampled_from(punct))
+        at = draw(st.sampled_from([z for z, ch in enumerate(near) if ch in ".-"]))
+        cand = near[:at] + draw(st.sampled_from(["_", "x", "0"])) + near[at + 1:]
+        if not any(cand in m_["name"] or m_["name"] in cand for m_ in macros):
+            u = cand
     expect_name = u
     slots = item_slots(factored, [])
     items = [(c, i) for c, i, t in slots if t == "item"]
